@@ -295,12 +295,32 @@ func genTwoCase(rt *rapid.T) Case {
 		c.Seq = genSeq(rt, "seq", 4)
 		c.Seq2 = genSeq(rt, "seq2", 8)
 		// often make the pattern a piece of the text
-		if len(c.Seq2) > 0 && rapid.Bool().Draw(rt, "embed") {
+		switch mode := rapid.IntRange(0, 3).Draw(rt, "mode"); {
+		case mode <= 1 && len(c.Seq2) > 0: // the pattern is a piece of the text
 			a := rapid.IntRange(0, len(c.Seq2)).Draw(rt, "a")
 			b := rapid.IntRange(a, len(c.Seq2)).Draw(rt, "b")
 			if b-a <= 4 {
 				c.Seq = append([]int(nil), c.Seq2[a:b]...)
 			}
+		case mode == 2:
+			// self-overlapping: pattern = u^k v, text = x u^(k+j) v y, so that the occurrence starts
+			// inside an earlier partial match (a scan that skips ahead after a partial match misses it)
+			u := genSeq(rt, "unit", 2)
+			if len(u) == 0 {
+				u = []int{rapid.IntRange(0, 3).Draw(rt, "unit1")}
+			}
+			v := genSeq(rt, "tail", 2)
+			k := rapid.IntRange(1, 2).Draw(rt, "k")
+			j := rapid.IntRange(1, 2).Draw(rt, "j")
+			c.Seq, c.Seq2 = nil, genSeq(rt, "before", 1)
+			for i := 0; i < k; i++ {
+				c.Seq = append(c.Seq, u...)
+			}
+			c.Seq = append(c.Seq, v...)
+			for i := 0; i < k+j; i++ {
+				c.Seq2 = append(c.Seq2, u...)
+			}
+			c.Seq2 = append(append(c.Seq2, v...), genSeq(rt, "after", 1)...)
 		}
 	case "mismatch":
 		c.Seq = genSeq(rt, "seq", 8)
@@ -735,6 +755,81 @@ func enumTwo(max1, max2 int, yield func(Case) bool) {
 	}
 }
 
+// twoKinds are the kind pairs of the quick two-sequence grids.
+var twoKinds = [][2]string{{"list", "list"}, {"vector", "vector"}, {"list", "vector"}, {"vector", "list"}, {"string", "string"}}
+
+// enumTwoPlain enumerates search, mismatch and replace without bounds over all pairs of
+// sequences (alphabet of alpha symbols, lengths <= max1 x <= max2) for lists, vectors and
+// strings, with the default test (no :test keyword) as well as explicit ones, with and
+// without :key and :from-end.
+func enumTwoPlain(alpha, max1, max2 int, yield func(Case) bool) {
+	for _, fn := range avail("search", "mismatch", "replace") {
+		tests := opt(has(fn, "test"), "", "eql", "lt")
+		fes := opt(has(fn, "from-end"), "", "t")
+		keys := opt(has(fn, "key"), "", "id")
+		for _, kinds := range twoKinds {
+			ok := allSeqs(alpha, max1, func(s1 []int) bool {
+				return allSeqs(alpha, max2, func(s2 []int) bool {
+					for _, test := range tests {
+						for _, fe := range fes {
+							for _, key := range keys {
+								c := Case{Fn: fn, Kind: kinds[0], Kind2: kinds[1], Seq: s1, Seq2: s2, Test: test, FromEnd: fe, Key: key}
+								if !yield(c) {
+									return false
+								}
+							}
+						}
+					}
+					return true
+				})
+			})
+			if !ok {
+				return
+			}
+		}
+	}
+}
+
+// enumOverlap enumerates searches for self-overlapping patterns: every pattern p over 3
+// symbols up to length 4, every proper prefix q of p, text = x q p y with x, y empty or one
+// symbol. The occurrence of p then starts inside (or right after) a partial match.
+func enumOverlap(yield func(Case) bool) {
+	if docKeys["search"] == nil {
+		return
+	}
+	pads := [][]int{nil, {0}, {1}, {2}}
+	tests := opt(has("search", "test"), "", "equal")
+	fes := opt(has("search", "from-end"), "", "t")
+	for _, kinds := range twoKinds {
+		ok := allSeqs(3, 4, func(p []int) bool {
+			for ql := 1; ql < len(p); ql++ {
+				for _, x := range pads {
+					for _, y := range pads {
+						text := append(append(append(append([]int(nil), x...), p[:ql]...), p...), y...)
+						for _, test := range tests {
+							for _, fe := range fes {
+								c := Case{Fn: "search", Kind: kinds[0], Kind2: kinds[1], Seq: p, Seq2: text, Test: test, FromEnd: fe}
+								if !yield(c) {
+									return false
+								}
+								// and bounded so that only the later occurrence is inside the range
+								c.Start2 = strconv.Itoa(len(x))
+								if !yield(c) {
+									return false
+								}
+							}
+						}
+					}
+				}
+			}
+			return true
+		})
+		if !ok {
+			return
+		}
+	}
+}
+
 // ---------------------------------------------------------------- the test
 
 var (
@@ -753,6 +848,8 @@ var (
 	pItemAll = h.Prop[Case]{Name: "item-exhaustive", Run: run}
 	pDupAll  = h.Prop[Case]{Name: "duplicates-exhaustive", Run: run}
 	pTwoAll  = h.Prop[Case]{Name: "two-sequences-exhaustive", Run: run}
+	// unbounded grid with the default test and self-overlapping patterns; runs in both tiers
+	pTwoPlain = h.Prop[Case]{Name: "two-sequences-default-test-grid", Run: run}
 )
 
 func TestC14(t *testing.T) {
@@ -772,6 +869,7 @@ func TestC14(t *testing.T) {
 	h.RunProp(t, pItemAll, 0) // (replay entry points of the enumerated sub-properties)
 	h.RunProp(t, pDupAll, 0)
 	h.RunProp(t, pTwoAll, 0)
+	h.RunProp(t, pTwoPlain, 0)
 	h.RunProp(t, pItem, h.N(25000, 400000))
 	h.RunProp(t, pDup, h.N(8000, 150000))
 	h.RunProp(t, pAlist, h.N(6000, 100000))
@@ -783,6 +881,21 @@ func TestC14(t *testing.T) {
 
 	itemFns := []string{"find", "find-if", "position", "position-if", "count", "count-if", "remove", "remove-if",
 		"delete", "delete-if", "substitute", "substitute-if", "nsubstitute", "nsubstitute-if"}
+	if h.C.Shard == 0 {
+		h.Enumerate(t, pTwoPlain, func(yield func(Case) bool) {
+			stopped := false
+			once := func(c Case) bool {
+				stopped = stopped || !yield(c)
+				return !stopped
+			}
+			enumTwoPlain(2, 3, 5, once)
+			if !stopped {
+				enumOverlap(once)
+			}
+		})
+		h.Note("exhaustive in both tiers: search/mismatch/replace without bounds on all pairs of 2-symbol sequences <= 3 x <= 5 for list/vector/string " +
+			"with the default test, eql and <, with and without :key and :from-end; search for every self-overlapping pattern (3 symbols, <= 4 long, text = x prefix pattern y)")
+	}
 	if h.Thorough() {
 		// every shard takes its share
 		seqs := func(f func([]int) bool) bool {
